@@ -9,7 +9,7 @@ import re
 import z3
 
 from .common import Unsupported, HarnessError
-from .engine import Engine, M, TRUE, FALSE
+from .engine import Engine, M, TRUE, FALSE, tid
 
 _HASH = 7
 
@@ -26,7 +26,7 @@ TAG = z3.Function('TAG', _I, _I)       # 0 literal, 1 S-range, 2 SF-range, 3 fre
 def _app(fn, arg, axioms):
     eng = Engine.cur
     t = M.app(fn, arg)
-    k = t.get_id()
+    k = tid(t)
     if k not in eng.fn_apps:
         eng.fn_apps[k] = (fn.name(), arg, t)
         for ax in axioms(t):
@@ -152,7 +152,7 @@ def _num_eq(a, b):
     if na is None or nb is None:
         return NotImplemented
     if na[0] == 'i' and nb[0] == 'i':
-        if na[1].get_id() == nb[1].get_id():
+        if tid(na[1]) == tid(nb[1]):
             return SymBool(TRUE)
         return SymBool(M.op2('==', na[1], nb[1]))
     if na[0] == 'f' and nb[0] == 'f':
@@ -399,7 +399,7 @@ class SymStr(_Sym):
         b = self._other(o)
         if b is None:
             return NotImplemented
-        if b.get_id() == self.e.get_id():
+        if tid(b) == tid(self.e):
             return SymBool(TRUE)
         return SymBool(M.op2('==', self.e, b))
 
@@ -457,7 +457,7 @@ class SymHash(_Sym):
             if type(o) is str or getattr(type(o), '_is_sym', False):
                 return SymBool(FALSE)
             return NotImplemented
-        if o.e.get_id() == self.e.get_id():
+        if tid(o.e) == tid(self.e):
             return SymBool(TRUE)
         return SymBool(M.op2('==', self.e, o.e))
 
